@@ -47,7 +47,7 @@ def WF (G : Graph) : Prop := ∀ v, v < G.n → ∀ x ∈ G.nbrs v, x < G.n
 
 def wfB (G : Graph) : Bool := (List.range G.n).all fun v => (G.nbrs v).all fun x => decide (x < G.n)
 
-def Consistent (G : Graph) (h : Nat → Nat) : Prop := ∀ u v, v ∈ G.nbrs u → h u ≤ G.cost u v + h v
+def Consistent (G : Graph) (h : Nat → Nat) : Prop := ∀ u, u < G.n → ∀ v ∈ G.nbrs u, h u ≤ G.cost u v + h v
 
 def consistentB (G : Graph) (h : Nat → Nat) : Bool :=
   (List.range G.n).all fun u => (G.nbrs u).all fun v => decide (h u ≤ G.cost u v + h v)
